@@ -425,8 +425,11 @@ Definition cmodule := (list ptype * list ptype * list cap * hscript)%type.
 Definition cm_module (c : cmodule) : module := let '(i, o, k, _) := c in mkModule i o k.
 Definition cm_script (c : cmodule) : hscript := let '(_, _, _, h) := c in h.
 
-(* modules, attempted connects, external inputs, enforce_static_checks *)
-Definition case := (list cmodule * list wire * list (nat * list (nat * oval)) * bool)%type.
+(* modules, attempted connects, wires appended to `diagram.wires` directly (NOT through connect: such a
+   diagram is outside the property, these cases only tie [deliver]'s per-wire runtime checks to the code;
+   [] in every case the property speaks about), external inputs, enforce_static_checks *)
+Definition case :=
+  (list cmodule * list wire * list wire * list (nat * list (nat * oval)) * bool)%type.
 
 Definition zn (n : nat) : Z := Z.of_nat n.
 
@@ -450,10 +453,10 @@ Definition caps_obs (l : list cap) : list Z :=
   map (fun c => zn (cap_code c)) (filter (fun c => cap_mem c l) all_caps).
 
 Definition run_case (c : case) : list (list Z) :=
-  let '(cms, attempts, ext, enforce) := c in
+  let '(cms, attempts, forced, ext, enforce) := c in
   let mods := map cm_module cms in
   let hs := fun m => match nth_error cms m with Some cm => interp_h (cm_script cm) | None => None end in
-  let wires := build mods attempts in
+  let wires := build mods attempts ++ forced in
   let '(out, calls) := execute mods wires hs enforce ext in
   [ map (fun w => cerr_code (connect_check mods w)) attempts;
     caps_obs (required_caps mods);
